@@ -1,6 +1,6 @@
 """Property -> rules."""
 from . import engine
-from .rules import tables
+from .rules import tables, errflow
 
 TRUST_COMMON = ["rustc (type checking, MIR construction, Instance resolution)", "pest / pest_meta (PEG + Pratt semantics)"]
 
